@@ -115,4 +115,12 @@ mut("C16 norm sums rows instead of columns", [(MAT, "vec_norm += &self[(i, j)].r
 mut("C16 norm without the square root", [(MAT, "res += &vec_norm.sqrt();", "res += &vec_norm;")], C16="C16-d")
 mut("C16 identity off by one", [(MAT, "        for i in 0..dim {\n            res[(i, i)] = self.data[0].one();", "        for i in 1..dim {\n            res[(i, i)] = self.data[0].one();")], C16="C16-d")
 
+# ---- C07 / C11 rescaling ----
+mut("C07 loop number dropped from the scaling exponent", [(SAM, "tropical_subgraph_table.dimension as f64 / 2.0 * loop_number as f64\n                    + tropical_subgraph_table.tropical_graph.dod,", "tropical_subgraph_table.dimension as f64 / 2.0\n                    + tropical_subgraph_table.tropical_graph.dod,")], C07="C07-c", C11="C11-c")
+mut("C07 omega of the graph before removal", [(SAM, "        graph = graph_without_edge;\n        if graph.is_empty() {\n            break;\n        }\n\n        let xi = rng.get_random_number(Some(\"sample xi\"));\n        kappa *= &xi.powf(\n            &xi.from_f64(tropical_subgraph_table.table[graph.get_id()].generalized_dod)", "        let omega_g = tropical_subgraph_table.table[graph.get_id()].generalized_dod;\n        graph = graph_without_edge;\n        if graph.is_empty() {\n            break;\n        }\n\n        let xi = rng.get_random_number(Some(\"sample xi\"));\n        kappa *= &xi.powf(\n            &xi.from_f64(omega_g)")], C07="C07-a")
+mut("C07 v_trop condition without the negation", [(SAM, "            && !tropical_subgraph_table.table[graph_without_edge.get_id()].mass_momentum_spanning", "            && tropical_subgraph_table.table[graph_without_edge.get_id()].mass_momentum_spanning")], C07="C07-b", C11="C11-d")
+mut("C07 u_trop multiplied by kappa squared", [(SAM, "            u_trop *= &x_vec[edge];", "            u_trop *= &x_vec[edge];\n            u_trop *= &x_vec[edge];")], C07="C07-b")
+mut("C07 rescaling skips the first parameter", [(SAM, "x_vec.iter_mut().for_each(|x| *x *= &scaling);", "x_vec.iter_mut().skip(1).for_each(|x| *x *= &scaling);")], C07="C07-c")
+mut("C07 N: target written with one division", [(SAM, "        * (u_trop.ref_div(&xi_trop))\n            .powf(&xi_trop.from_f64(tropical_subgraph_table.tropical_graph.dod));", "        * (v_trop.inv())\n            .powf(&xi_trop.from_f64(tropical_subgraph_table.tropical_graph.dod));")], C07=None, C11=None)
+
 MUTATIONS = M
